@@ -1,9 +1,9 @@
 #!/bin/bash
-# tools/run_all.sh <seed> [tier] [jobs]: run every claimed check against /repo with VERIF_SEED=<seed>, results to .work/all_<seed>_<tier>.txt
+# tools/run_all.sh <seed> [tier] [jobs] (REAL=1 writes evidence/ and replays/ in /verif instead of a scratch directory): run every claimed check against /repo with VERIF_SEED=<seed>, results to .work/all_<seed>_<tier>.txt
 seed=${1:-0}; tier=${2:-quick}; jobs=${3:-6}
 out=/verif/.work/all_${seed}_${tier}.txt; : > $out
-run1() { id=$1; t0=$(date +%s); VERIF_SEED=$seed VERIF_OUT=/tmp/all_out_${seed}_$tier/$id /verif/check $id --tier $tier > /tmp/all_${seed}_${tier}_$id.log 2>&1; rc=$?
+run1() { id=$1; t0=$(date +%s); if [ -n "$REAL" ]; then VERIF_SEED=$seed /verif/check $id --tier $tier > /tmp/all_${seed}_${tier}_$id.log 2>&1; rc=$?; else VERIF_SEED=$seed VERIF_OUT=/tmp/all_out_${seed}_$tier/$id /verif/check $id --tier $tier > /tmp/all_${seed}_${tier}_$id.log 2>&1; rc=$?; fi
   echo "$id rc=$rc t=$(( $(date +%s)-t0 ))s known=$(grep -c '^KNOWN' /tmp/all_${seed}_${tier}_$id.log) $(grep -m1 '^VIOLATION' /tmp/all_${seed}_${tier}_$id.log)" >> $out; }
-export -f run1; export seed tier out
+export -f run1; export seed tier out REAL
 tr ' ' '\n' < /verif/tools/claimed.txt | grep . | xargs -P $jobs -I{} bash -c 'run1 {}'
 sort $out
